@@ -521,7 +521,7 @@ package service
 //@ vars (keeper.Keeper).IterateServiceBindings: k=github.com/irismod/service/keeper.Keeper#0 ctx=github.com/cosmos/cosmos-sdk/types.Context#0 op=func#0 binding=github.com/irismod/service/types.ServiceBinding#0 stop=bool#0 store=github.com/cosmos/cosmos-sdk/types.KVStore#0 iterator=github.com/cosmos/cosmos-sdk/types.Iterator#0 binding=github.com/irismod/service/types.ServiceBinding#1 stop=bool#1
 //@ vars (keeper.Keeper).IterateServiceDefinitions: k=github.com/irismod/service/keeper.Keeper#0 ctx=github.com/cosmos/cosmos-sdk/types.Context#0 op=func#0 definition=github.com/irismod/service/types.ServiceDefinition#0 stop=bool#0 store=github.com/cosmos/cosmos-sdk/types.KVStore#0 iterator=github.com/cosmos/cosmos-sdk/types.Iterator#0 definition=github.com/irismod/service/types.ServiceDefinition#1 stop=bool#1
 //@ vars (keeper.Keeper).IterateWithdrawAddresses: k=github.com/irismod/service/keeper.Keeper#0 ctx=github.com/cosmos/cosmos-sdk/types.Context#0 op=func#0 owner=github.com/cosmos/cosmos-sdk/types.AccAddress#0 withdrawAddress=github.com/cosmos/cosmos-sdk/types.AccAddress#1 stop=bool#0 store=github.com/cosmos/cosmos-sdk/types.KVStore#0 iterator=github.com/cosmos/cosmos-sdk/types.Iterator#0 ownerAddress=github.com/cosmos/cosmos-sdk/types.AccAddress#2 withdrawAddress=github.com/cosmos/cosmos-sdk/types.AccAddress#3 stop=bool#1
-//@ props C19 C18
+//@ props C19 C18 C05 C09 C15
 //@ loop IterateServiceDefinitions.0 invariant pos_in_range: 0 <= iterator_pos && iterator_pos <= itCount(iterator_snap, iterator_pfx)
 //@ loop IterateServiceDefinitions.0 invariant snapshot: iterator_snap == raw && iterator_pfx == PAllDef
 //@ loop IterateServiceDefinitions.0 invariant listed_so_far: outer_definitions == defsIt(iterator_snap, iterator_pfx, iterator_pos)
@@ -550,7 +550,7 @@ package service
 
 //@ func InitGenesis
 //@ vars service.InitGenesis: ctx=github.com/cosmos/cosmos-sdk/types.Context#0 k=github.com/irismod/service/keeper.Keeper#0 data=github.com/irismod/service/types.GenesisState#0 err=error#0 definition=github.com/irismod/service/types.ServiceDefinition#0 binding=github.com/irismod/service/types.ServiceBinding#0 err=error#1 ownerAddressStr=string#0 withdrawAddress=[]byte#0 ownerAddress=github.com/cosmos/cosmos-sdk/types.AccAddress#0 reqContextIDStr=string#1 requestContext=*github.com/irismod/service/types.RequestContext#0 requestContextID=[]byte#1
-//@ props C19
+//@ props C19 C05 C09 C15
 //@ modifies raw
 //@ maypanic
 //@ requires well_typed_context_records: forall s Str :: {mapGet_Map_Str_RequestContext(data.RequestContexts, s)} rng_RequestContext(mapGet_Map_Str_RequestContext(data.RequestContexts, s))
